@@ -231,6 +231,137 @@ fn check_transformed(lang: SupportLang, lname: &str, fname: &str, src: &str, nod
   }
 }
 
+/// a transformation whose source is a multi-line `$$$ARGS`: the transformed text keeps the
+/// relative indentation of its lines (de-indented by the line of the FIRST member, as the capture itself)
+fn check_transformed_multi(rng: &mut Rng, rep: &mut Report) {
+  let m = rng.below(7);
+  let n = 2 + rng.below(4);
+  let first_on_own_line = rng.chance(3, 10);
+  let k0 = if first_on_own_line { rng.below(10) } else { m };
+  let mut call = String::from("foo(");
+  for i in 0..n {
+    let name = if rng.chance(1, 2) { format!("aQQ{i}") } else { format!("b{i}") };
+    if i == 0 {
+      if first_on_own_line {
+        call.push('\n');
+        call.push_str(&" ".repeat(k0));
+      }
+    } else if rng.chance(3, 4) {
+      let k = if rng.chance(17, 20) { k0 + rng.below(9) } else { rng.below(k0 + 1) };
+      call.push_str(",\n");
+      call.push_str(&" ".repeat(k));
+    } else {
+      call.push_str(", ");
+    }
+    call.push_str(&name);
+  }
+  call.push_str(if rng.chance(3, 10) { "\n)" } else { ")" });
+  let src = format!("function f() {{\n{}{call};\n}}\n", " ".repeat(m));
+  let tpl = *rng.pick(&["bar($NEW)", "bar(\n    $NEW)", "x = [$NEW, 1]", "$NEW"]);
+  let yaml = serde_json::to_string(&json!({"id":"t","language":"JavaScript","rule":{"pattern":"foo($$$ARGS)"},
+    "transform":{"NEW":{"replace":{"source":"$$$ARGS","replace":"QQ","by":"R"}}},"fix":tpl}))
+  .unwrap();
+  let replay = json!({"monitor":"c07","case":"transformed","source":src,"rule":yaml});
+  let r = guarded(|| {
+    let g = GlobalRules::default();
+    let mut v = from_yaml_string::<SupportLang>(&yaml, &g).ok()?;
+    let cfg = v.pop()?;
+    let grep = SupportLang::JavaScript.ast_grep(&src);
+    let nm = grep.root().find(&cfg.matcher)?;
+    let fixer = cfg.matcher.fixer.as_ref()?;
+    let got = String::from_utf8_lossy(&fixer.generate_replacement(&nm)).to_string();
+    let (text, c) = lookup(&nm, &src, "ARGS", true)?;
+    let pieces = scan(tpl)?;
+    let mm = line_indent_at(&src, nm.range().start);
+    let want = expand(&pieces, &|n, _| if n == "NEW" { Some((text.replace("QQ", "R"), c)) } else { None }, mm);
+    Some((got, want, text.contains('\n'), capture_in_scope(&text, c)))
+  });
+  rep.evaluations += 1;
+  match r {
+    Ok(Some((got, want, ml, scope))) => {
+      if !scope {
+        rep.count("no_verdict", 1);
+        return;
+      }
+      rep.count("verdicts_transformed_multi", 1);
+      if ml {
+        rep.count("verdicts_transformed_multi_line", 1);
+      }
+      if got != want {
+        rep.violation("C07/expansion/transformed-multi", &format!("template {:?} with NEW=replace($$$ARGS) on {:?} gives {:?}, reference {:?}", tpl, call, got, want), replay);
+      }
+    }
+    Ok(None) => rep.count("transformed_multi_no_match", 1),
+    Err(p) => rep.violation(&format!("C07/panic/{}", p.site()), &format!("panic at {}: {}", p.location, p.message), replay),
+  }
+}
+
+/// match sites far into a long line (around and beyond the implementation's 512-byte look-behind):
+/// a single-line template around a multi-line `$$$ARGS` whose first member sits on the line of the
+/// match start must reproduce the continuation lines unchanged (c == m whatever the site is)
+fn check_long_line(rng: &mut Rng, rep: &mut Report) {
+  let l = if rng.chance(1, 2) { 0 } else { rng.below(9) };
+  let col = match rng.below(4) {
+    0 => 20 + rng.below(400),
+    1 => 470 + rng.below(80),
+    _ => 560 + rng.below(900),
+  };
+  let mut line = " ".repeat(l);
+  line.push_str("const s = \"");
+  while line.len() + 3 < col {
+    let room = col - 3 - line.len();
+    let n = 1 + rng.below(room.min(70));
+    let ch = if rng.chance(1, 2) { " " } else { "x" };
+    line.push_str(&ch.repeat(n));
+  }
+  line.push_str("\"; ");
+  let (k1, k2) = (l + rng.below(9), l + rng.below(9));
+  let call = format!("wrap(first,\n{}second,\n{}third)", " ".repeat(k1), " ".repeat(k2));
+  let src = format!("// h\n{line}{call};\n");
+  let (callee, tpl) = *rng.pick(&[("wrap", "wrap($$$ARGS)"), ("call", "call($$$ARGS)"), ("(0, w)", "(0, w)($$$ARGS)")]);
+  long_line_case(&src, callee, tpl, rep);
+}
+
+fn long_line_case(src: &str, callee: &str, tpl: &str, rep: &mut Report) {
+  let replay = json!({"monitor":"c07","case":"long-line","source":src,"callee":callee,"template":tpl});
+  let start = src.find("wrap(first").unwrap_or(0);
+  let ls = src[..start].rfind('\n').map(|i| i + 1).unwrap_or(0);
+  let (col_m, l) = (start - ls, line_indent_at(src, start));
+  let call = src[start..].split(';').next().unwrap_or("").to_string();
+  let r = guarded(|| {
+    let lang = SupportLang::JavaScript;
+    let grep = lang.ast_grep(src);
+    let pat = Pattern::try_new("wrap($$$ARGS)", lang).ok()?;
+    let nm = grep.root().find(&pat)?;
+    if nm.text() != call {
+      return None;
+    }
+    let fix = TemplateFix::try_new(tpl, &lang).ok()?;
+    Some(String::from_utf8_lossy(&fix.generate_replacement(&nm)).to_string())
+  });
+  rep.evaluations += 1;
+  let want = format!("{callee}{}", &call[4.min(call.len())..]);
+  match r {
+    Ok(Some(got)) => {
+      let class = if col_m <= 480 { "near" } else if col_m > 511 { "beyond" } else { "boundary" };
+      rep.count(&format!("verdicts_long_line_{class}"), 1);
+      if got != want {
+        // the look-behind window reaches the line start from the match but not from the capture
+        let straddle = col_m <= 511 && col_m + callee_len_in_source() > 511 && l > 0;
+        let sig = if straddle { "C07/long-line/window-between-match-and-capture" } else { "C07/long-line/continuation-lines" };
+        rep.violation(sig, &format!("match at column {col_m} of a line indented by {l}: template {tpl:?} gives {:?}, expected {:?}", clip(&got, 120), clip(&want, 120)), replay);
+      }
+    }
+    Ok(None) => rep.count("long_line_no_match", 1),
+    Err(p) => rep.violation(&format!("C07/panic/{}", p.site()), &format!("panic at {}: {}", p.location, p.message), replay),
+  }
+}
+
+/// distance between the match start and the start of `$$$ARGS` in `wrap(first, ..`
+fn callee_len_in_source() -> usize {
+  5
+}
+
 // ------------------------------------------------------------------ convert / replace on the captured text
 const LOWER: [char; 5] = ['a', 'b', 'z', 'é', 'я'];
 const UPPER: [char; 5] = ['A', 'B', 'Z', 'É', 'Я'];
@@ -502,6 +633,10 @@ pub fn run_source(lang: SupportLang, fname: &str, src: &str, n_cases: usize, rng
 pub fn run(ctx: &Ctx, rep: &mut Report) {
   if let Some(r) = &ctx.replay {
     rep.evaluations += 1;
+    if r["case"] == "long-line" {
+      long_line_case(r["source"].as_str().unwrap(), r["callee"].as_str().unwrap(), r["template"].as_str().unwrap(), rep);
+      return;
+    }
     if r["case"] == "transformed" || r["case"] == "convert" {
       rep.notes.push("transformed cases are replayed through the run that produced them".into());
       return;
@@ -530,6 +665,8 @@ pub fn run(ctx: &Ctx, rep: &mut Report) {
   for _ in 0..(if ctx.thorough { 60000 } else { 1500 }) {
     check_convert(&mut rng, rep);
     check_substring_replace(&mut rng, rep);
+    check_transformed_multi(&mut rng, rep);
+    check_long_line(&mut rng, rep);
   }
   let files: Vec<SrcFile> = corpus::shard(&corpus::load_all(), ctx.shard, ctx.nshards);
   let n_cases = if ctx.thorough { 400 } else { 14 };
